@@ -1,0 +1,65 @@
+// Copyright 2020-2025 Buf Technologies, Inc.
+//
+// Licensed under the Apache License, Version 2.0 (the "License");
+// you may not use this file except in compliance with the License.
+// You may obtain a copy of the License at
+//
+//      http://www.apache.org/licenses/LICENSE-2.0
+//
+// Unless required by applicable law or agreed to in writing, software
+// distributed under the License is distributed on an "AS IS" BASIS,
+// WITHOUT WARRANTIES OR CONDITIONS OF ANY KIND, either express or implied.
+// See the License for the specific language governing permissions and
+// limitations under the License.
+
+//go:build verif
+
+package connectclient
+
+// Contracts for the gocv verifier (see /verif/DESIGN.md), author ca-W. Comment-only.
+//
+// C19 "attached only if it was configured for that request's registry host": the authorization interceptor of a client
+// captures an address when it is created (bufconnect.NewAuthorizationInterceptorProvider, verified in bufconnect) and
+// looks tokens up for THAT address. Make must therefore create it with exactly the address the client is made for -
+// the registry host as the caller names it, BEFORE the address mapper turns it into a URL (the token tables are keyed by
+// host, "https://host" would never match and a mapped address of ANOTHER host must never be used) - and must dial the
+// mapped form of the same address.
+// The three function values are modelled as deterministic functions (callback pure).
+//@ func Make(cfg, address, factory) (r)
+//@   property C19
+//@   modifies heap
+//@   callback pure authInterceptorProvider
+//@   callback pure addressMapper
+//@   callback pure factory
+//@   assert before "return factory" auth-for-the-requested-host: cfg.authInterceptorProvider != nil ==> len(interceptors) == len(cfg.interceptors) + 1 && interceptors[len(cfg.interceptors)] == cfg.authInterceptorProvider(old(address))
+//@   assert before "return factory" auth-applied-last-others-kept: len(interceptors) >= len(cfg.interceptors) && (forall i int :: 0 <= i && i < len(cfg.interceptors) ==> interceptors[i] == cfg.interceptors[i])
+//@   assert before "return factory" no-auth-unless-configured: cfg.authInterceptorProvider == nil ==> len(interceptors) == len(cfg.interceptors)
+//@   assert before "return factory" dials-the-same-host: address == ite(cfg.addressMapper != nil, cfg.addressMapper(old(address)), old(address))
+//
+// The configuration options: each one sets exactly its own field (closure 0 is the returned option). In particular only
+// WithAuthInterceptorProvider installs an authorization-interceptor provider, and it installs the one it was given.
+//@ func WithAuthInterceptorProvider(authInterceptorProvider) (r)
+//@   property C19
+//@   modifies heap
+//@   closure 0 ensures installs-the-given-provider: cfg.authInterceptorProvider == authInterceptorProvider
+//@   closure 0 ensures nothing-else: cfg.addressMapper == old(cfg.addressMapper) && cfg.interceptors == old(cfg.interceptors) && cfg.httpClient == old(cfg.httpClient)
+//
+//@ func WithAddressMapper(addressMapper) (r)
+//@   property C19
+//@   modifies heap
+//@   closure 0 ensures installs-the-given-mapper: cfg.addressMapper == addressMapper
+//@   closure 0 ensures auth-provider-untouched: cfg.authInterceptorProvider == old(cfg.authInterceptorProvider) && cfg.interceptors == old(cfg.interceptors) && cfg.httpClient == old(cfg.httpClient)
+//
+//@ func WithInterceptors(interceptors) (r)
+//@   property C19
+//@   modifies heap
+//@   closure 0 ensures installs-the-given-interceptors: cfg.interceptors == interceptors
+//@   closure 0 ensures auth-provider-untouched: cfg.authInterceptorProvider == old(cfg.authInterceptorProvider) && cfg.addressMapper == old(cfg.addressMapper) && cfg.httpClient == old(cfg.httpClient)
+//
+// NewConfig applies the options in order. The options are arbitrary function values (calls through them are unknown
+// calls for the engine: results arbitrary, heap havocked), so that NewConfig(..., WithAuthInterceptorProvider(p)) ends with
+// authInterceptorProvider == p is NOT derivable here; what each of the three options does is verified above.
+//@ func NewConfig(httpClient, options) (r)
+//@   property C19
+//@   modifies heap
+//@   ensures r != nil
